@@ -16,7 +16,7 @@ var zzE18 = new(big.Int).Exp(big.NewInt(10), big.NewInt(18), nil)
 
 func zzDecimalsChoice(name string) uint64 {
 	if vrt.Thorough() {
-		return vrt.Uint64Below(name, 25)
+		return uint64(vrt.Choose(name, 25)) // every value 0..24
 	}
 	return []uint64{6, 18, 24}[vrt.Choose(name, 3)]
 }
@@ -24,7 +24,9 @@ func zzDecimalsChoice(name string) uint64 {
 // zzRate: commission rate in [0,1) as sdk.Dec
 func zzRate(name string) sdk.Dec {
 	if vrt.Thorough() {
-		return sdk.NewDecFromBigIntWithPrec(vrt.IntRange(name, big.NewInt(0), new(big.Int).Sub(zzE18, big.NewInt(1))), 18)
+		// the product rate*(amount+fee) with both symbolic is beyond the solver (unknown): eight rates instead
+		return []sdk.Dec{sdk.ZeroDec(), sdk.NewDecWithPrec(1, 18), sdk.NewDecWithPrec(1, 2), sdk.NewDecWithPrec(333333333333333333, 18), sdk.NewDecWithPrec(5, 1),
+			sdk.NewDecWithPrec(7, 3), sdk.NewDecWithPrec(999, 3), sdk.NewDecFromBigIntWithPrec(new(big.Int).Sub(zzE18, big.NewInt(1)), 18)}[vrt.Choose(name, 8)]
 	}
 	return []sdk.Dec{sdk.ZeroDec(), sdk.NewDecWithPrec(1, 2), sdk.NewDecWithPrec(5, 1), sdk.NewDecFromBigIntWithPrec(new(big.Int).Sub(zzE18, big.NewInt(1)), 18)}[vrt.Choose(name, 4)]
 }
